@@ -81,8 +81,8 @@ def coq_build(clean=False, pid=None):
     Properties file (with everything it imports) and the correspondence files; a theorem of ANOTHER property that no longer
     checks (for instance against regenerated facts) is that property's business."""
     with Lock("coq"):
-        if not os.path.exists(os.path.join(COQ, "Makefile")) or clean:
-            run(["coq_makefile", "-f", "_CoqProject", "-o", "Makefile"], cwd=COQ)
+        # regenerated on every run: the file list is _CoqProject's, whatever the time stamps say
+        run(["coq_makefile", "-f", "_CoqProject", "-o", "Makefile"], cwd=COQ)
         if clean:
             run(["make", "clean"], cwd=COQ, timeout=300)
         r = run(["timeout", "3000", "make", "-k", "-j16"], cwd=COQ, timeout=3100)
@@ -144,8 +144,28 @@ def parse_race_logs(out):
                         top = fn.split("/")[-1]
                         break
                 tops.append(top or "?")
-            reports.append((sorted(tops[:2]), block[:3000]))
+            # the two racing goroutines, each with its access stack and the stack it was created at: a recorded finding may
+            # identify a report by what the two goroutines were doing rather than by the innermost frames
+            gids = re.findall(r"(?:Read|Write|Previous read|Previous write) at \S+ by (goroutine \d+|main goroutine)", block)
+            sides = []
+            for gid in gids[:2]:
+                acc = re.search(r"by %s:\n(.*?)(?:\n\n|\Z)" % re.escape(gid), block, re.S)
+                num = gid.split()[-1]
+                cre = re.search(r"Goroutine %s \([a-z]+\) created at:\n(.*?)(?:\n\n|\Z)" % re.escape(num), block, re.S)
+                sides.append((acc.group(1) if acc else "") + "\n" + (cre.group(1) if cre else ""))
+            while len(sides) < 2:
+                sides.append("")
+            reports.append((sorted(tops[:2]), block[:3000], sides))
     return reports
+
+
+def race_matches_stacks(sides, rule):
+    """rule = {"one": [substr...], "other": [substr...], "other_not": [substr...]}: one goroutine's stacks contain all of
+    'one', the other goroutine's contain all of 'other' and none of 'other_not'."""
+    def ok(a, b):
+        return all(x in a for x in rule.get("one", [])) and all(x in b for x in rule.get("other", [])) and \
+            not any(x in b for x in rule.get("other_not", []))
+    return ok(sides[0], sides[1]) or ok(sides[1], sides[0])
 
 
 def harness_build(wd, race=False):
@@ -370,8 +390,15 @@ def decide(pid, tier):
                 for pr in k.get("race_pairs", []):
                     known_pairs[tuple(sorted(pr))] = k
         unknown, seen_known = [], {}
-        for pair, text in race_reports:
+        stack_rules = [(k, rule) for k in load_known() if k.get("status") == "known" and k["property"] == pid
+                       for rule in k.get("race_stacks", [])]
+        for pair, text, sides in race_reports:
             k = known_pairs.get(tuple(pair))
+            if not k:
+                for kk, rule in stack_rules:
+                    if race_matches_stacks(sides, rule):
+                        k = kk
+                        break
             if k:
                 seen_known[k["id"]] = seen_known.get(k["id"], 0) + 1
             else:
